@@ -169,11 +169,16 @@ def regFinish (new : Ty) (r : Forest × Bool) : Forest :=
   if r.2 then r.1 else if (r.1.get? new).isSome then r.1 else r.1.set new .nil
 
 /-- the `for cur_type, sub_tree in list(_type_tree.items())` loop of `_register_fuzzy_type`.
-    `snap` is what is left of the snapshot, `cur` the dict being mutated, the Bool is `registered`. -/
+    `snap` is what is left of the snapshot, `cur` the dict being mutated, the Bool is `registered`.
+    Since 63b9f8a the loop starts with `if cur_type is new_type:` — a re-registration: the type keeps
+    its subtree and moves to the end (`_type_tree[new_type] = _type_tree.pop(cur_type)`). -/
 def regLoop (H : Hier) (new : Ty) : Forest → Forest → Bool → Forest × Bool
   | .nil, cur, reg => (cur, reg)
   | .cons c kids rest, cur, reg =>
-    if H.sub c new then
+    if c == new then
+      -- _type_tree[new_type] = _type_tree.pop(cur_type)
+      regLoop H new rest ((cur.erase c).set new ((cur.get? c).getD .nil)) true
+    else if H.sub c new then
       -- sub_tree = _type_tree.pop(cur_type)
       let subTree := (cur.get? c).getD .nil
       let cur1 := cur.erase c
@@ -191,6 +196,26 @@ def regLoop (H : Hier) (new : Ty) : Forest → Forest → Bool → Forest × Boo
 /-- `_register_fuzzy_type(op, new_type, _type_tree=tree)` -/
 def regFuzzy (H : Hier) (new : Ty) (tree : Forest) : Forest :=
   regFinish new (regLoop H new tree tree false)
+
+/-- the loop as it was before 63b9f8a (finding F42): an existing key `new` was treated as "a subclass
+    of the new type" (`issubclass(T, T)`), popped and — KeyError fallback — filed below a *new* key of
+    the same type.  Kept for the counter-example `c13_reregistration_nests`. -/
+def regLoopOld (H : Hier) (new : Ty) : Forest → Forest → Bool → Forest × Bool
+  | .nil, cur, reg => (cur, reg)
+  | .cons c kids rest, cur, reg =>
+    if H.sub c new then
+      let subTree := (cur.get? c).getD .nil
+      let cur1 := cur.erase c
+      let cur2 := match cur1.get? new with
+        | some newKids => cur1.set new (newKids.set c subTree)
+        | none => cur1.set new (.cons c subTree .nil)
+      regLoopOld H new rest cur2 true
+    else if H.sub new c then
+      regLoopOld H new rest (cur.set c (regFinish new (regLoopOld H new kids kids false))) true
+    else regLoopOld H new rest cur reg
+
+def regFuzzyOld (H : Hier) (new : Ty) (tree : Forest) : Forest :=
+  regFinish new (regLoopOld H new tree tree false)
 
 /-- the type tree of one op after the types of `order` were registered for it in that order without
     `exact=True`: `_register_fuzzy_type` applied to each in turn, starting from the empty dict -/
